@@ -52,6 +52,24 @@ fn fiin_strategy(ctx: &Ctx) -> BoxedStrategy<FiinCase> {
         .boxed()
 }
 
+/// File lengths around every whole multiple of a power of two from 1 KiB up: where an implementation that hashes
+/// in pieces changes from one piece to the next.
+fn fiin_boundary_cases(ctx: &Ctx) -> Vec<FiinCase> {
+    let max: u32 = ctx.tier.pick(4, 16) * 1024 * 1024;
+    let mut lens = std::collections::BTreeSet::new();
+    for p in 10..=22u32 {
+        for k in 1..=8u32 {
+            let base = k << p;
+            if base <= max {
+                for d in [-1i64, 0, 1] {
+                    lens.insert((base as i64 + d) as u32);
+                }
+            }
+        }
+    }
+    lens.into_iter().map(|l| FiinCase { files: vec![(format!("b{}.bin", l), l, l as u64, 0)] }).collect()
+}
+
 fn prop_fiin(c: &FiinCase, ctx: &Ctx) -> PResult {
     let dir = TmpDir::new("c10");
     let mut paths = vec![];
@@ -246,12 +264,13 @@ fn pre(ctx: &Ctx) {
 pub fn property() -> Property {
     Property {
         id: "C10",
-        rule: "file info: 0..6 files with distinct names of 1..63 bytes (ASCII and UTF-8), contents of length 0..300 KB (2 MiB thorough) forced onto the SHA-1 padding boundaries, handed to FileInfo::new as paths 0..2 directories deep; entries = (base name, exact size, own SHA-1); write_to_buffer decoded by a fixed-position reader (magic @0, 1024 @24, table size @28, records @1024+96i: size @0, name @8 NUL-padded to 64, digest @72 padded to 24); from_existing(written) = same entries. patch lists: boot and game lists of 0..8 entries, lengths / sizes up to 2^63-1 with sum < 2^63, versions, 1..6 hashes, URLs free of TAB / CR LF / ','; to_string equals the harness's renderer of the documented layout; from_string(to_string(x)) preserves length, size on disk, version, URL (game: hash block size, hashes) and patch_length = sum of lengths. Non-trivial: >= 2 files one of which is >= 64 bytes; >= 2 entries (game: one with >= 2 hashes). Distinct by hash of the table / text.",
+        rule: "file info: 0..6 files with distinct names of 1..63 bytes (ASCII and UTF-8), contents of length 0..300 KB (2 MiB thorough) forced onto the SHA-1 padding boundaries, plus single files of k x 2^p - 1, + 0, + 1 bytes for p = 10..22, k = 1..8 up to 4 MiB (16 MiB thorough), handed to FileInfo::new as paths 0..2 directories deep; entries = (base name, exact size, own SHA-1); write_to_buffer decoded by a fixed-position reader (magic @0, 1024 @24, table size @28, records @1024+96i: size @0, name @8 NUL-padded to 64, digest @72 padded to 24); from_existing(written) = same entries. patch lists: boot and game lists of 0..8 entries, lengths / sizes up to 2^63-1 with sum < 2^63, versions, 1..6 hashes, URLs free of TAB / CR LF / ','; to_string equals the harness's renderer of the documented layout; from_string(to_string(x)) preserves length, size on disk, version, URL (game: hash block size, hashes) and patch_length = sum of lengths. Non-trivial: >= 2 files one of which is >= 64 bytes; >= 2 entries (game: one with >= 2 hashes). Distinct by hash of the table / text.",
         assumptions: &["names <= 63 bytes; URLs, versions, ids free of the separators", "unknown_a / unknown_b of patch entries are not part of the statement (the parser drops them)"],
         pre: Some(pre),
         post: None,
         parts: vec![
             Box::new(Part { name: "fiin", driver: Driver::Gen(fiin_strategy, 16_000, 128_000), prop: prop_fiin, exhaustive: false }),
+            Box::new(Part { name: "fiin-piece-boundaries", driver: Driver::Enum(fiin_boundary_cases), prop: prop_fiin, exhaustive: false }),
             Box::new(Part { name: "patchlist", driver: Driver::Gen(list_strategy, 400_000, 3_200_000), prop: prop_list, exhaustive: false }),
         ],
     }
